@@ -736,8 +736,17 @@ def stream_hardening(ctx):
                 iop.one_body_tensor[1, 0] = numpy.conj(v)
                 iop.two_body_tensor[0, 1, 1, 0] = 1.25
                 fresh_iop = of.InteractionOperator(const, iop.one_body_tensor.copy(), iop.two_body_tensor.copy())
-                ok1, Qa = call(st, 'bk(edited InteractionOperator)', case, lambda: BK(iop, nq))
-                ok2, Qf = call(st, 'bk(fresh InteractionOperator)', case, lambda: BK(fresh_iop, nq))
+                if kind in ('clongdouble', 'longdouble'):
+                    # scalars of these dtypes are not accepted as QubitOperator coefficients by the unmodified tree:
+                    # whether a transform raises depends on which entries are non-zero, so the edited calls are probes
+                    ok1, Qa = soft(st, 'bk(edited InteractionOperator):' + kind, lambda: BK(iop, nq))
+                    ok2, Qf = soft(st, 'bk(fresh InteractionOperator):' + kind, lambda: BK(fresh_iop, nq))
+                    if ok1 != ok2:
+                        st.violate('bravyi_kitaev accepts an InteractionOperator edited in place but not a fresh equal one '
+                                   '(or vice versa)', case, {})
+                else:
+                    ok1, Qa = call(st, 'bk(edited InteractionOperator)', case, lambda: BK(iop, nq))
+                    ok2, Qf = call(st, 'bk(fresh InteractionOperator)', case, lambda: BK(fresh_iop, nq))
                 st.count('state:edited-in-place-then-requeried')
                 if ok1 and ok2 and canon_op_json(qenc(Qa)) != canon_op_json(qenc(Qf)):
                     st.violate('bravyi_kitaev of an InteractionOperator edited in place differs from a fresh one', case, {})
